@@ -892,12 +892,17 @@ def _with_limit(d, fn):
     """Run fn() with room for exactly d more Python frames than this one."""
     import inspect
     old = sys.getrecursionlimit()
+    hook = sys.unraisablehook
     here = len(inspect.stack(0))
+    # a generator finalised while the stack is at the limit cannot be closed; the report of
+    # that needs a frame too: a C-level callable takes it (what matters is judged afterwards)
+    sys.unraisablehook = id
     sys.setrecursionlimit(here + d)
     try:
         return fn()
     finally:
         sys.setrecursionlimit(old)
+        sys.unraisablehook = hook
 
 
 def task_interrupt(t):
@@ -910,7 +915,9 @@ def task_interrupt(t):
     _, which, seedlabel, focus = t
     rep = run.Report()
     rec = sweep.Rec(rep)
-    names = ('x', 'y', 'z', 'w')
+    import itertools as _it
+    seedlabel, _, pi = seedlabel.partition(':')
+    names = list(_it.permutations(('x', 'y', 'z', 'w')))[int(pi or 0)]
     mach = FaultBdd(names, max_handles=3, max_ext=1)
     U = mach.U
     base = mach.seed(seedlabel)
@@ -954,7 +961,7 @@ def task_interrupt(t):
             cut += 1
             rep.add('nontrivial')
             rep.mark('exception_classes', raised)
-            case = dict(task=(t[0], which, seedlabel, [label, d]), operation=label, frames=d,
+            case = dict(task=(t[0], which, t[2], [label, d]), operation=label, frames=d,
                         exception=raised)
             if label == 'release+collect':
                 # the release itself may or may not have happened: settle it
@@ -991,9 +998,10 @@ def ref_count(blob, v):
     return st.m._ref[abs(v)]
 
 
-def interrupt_plan():
-    return [('interrupt', which, sl, None) for which in ('off', 'dyn')
-            for sl in ('used', 'warm')]
+def interrupt_plan(tier='quick'):
+    perms = range(0, 24, 4) if tier == 'quick' else range(24)
+    return [('interrupt', which, '%s:%d' % (sl, pi), None) for which in ('off', 'dyn')
+            for sl in ('used', 'warm', 'swapped', 'vars') for pi in perms]
 
 
 def _dispatch_task(t):
@@ -1044,7 +1052,7 @@ def replay(case):
 def main(tier, t0):
     rep = run.Report()
     run.pmerge(_dispatch_task, [('tokens', 'off', None), ('tokens', 'dyn', None)]
-               + interrupt_plan(), rep)
+               + interrupt_plan(tier), rep)
     run.close_pool()
     total = dict(states=0, transitions=0, validated=0)
     bounds = {}
@@ -1067,7 +1075,7 @@ def main(tier, t0):
               'delete / duplicate / replace edit at every token position of 10 valid formulas; '
               'plus the interruption sweep: 29 valid calls cut short by RecursionError at EVERY '
               'depth at which they can be cut (room for d = 2, 3, ... more frames until the call '
-              'succeeds), 2 seed states x reordering off / on. '
+              'succeeds), 4 seed states x 6 (quick) / 24 (thorough) arrangements of the 4 names x reordering off / on. '
               'distinct_nontrivial counts DISTINCT fault kinds that really raised + distinct '
               'token edits that raised; evaluations counts injections'),
         exhaustive=not rep.caps,
